@@ -171,6 +171,17 @@ func emitPairs(name string, pairs [][2]string, secondIsNum bool) {
 	out.WriteString("].\n\n")
 }
 
+func emitPairsAllowEmpty(name string, pairs [][2]string) {
+	fmt.Fprintf(&out, "Definition %s : list (string * string) :=\n  [", name)
+	for i, p := range pairs {
+		if i > 0 {
+			out.WriteString(";\n   ")
+		}
+		fmt.Fprintf(&out, "(%s, %s)", coqString(p[0]), coqString(p[1]))
+	}
+	out.WriteString("].\n\n")
+}
+
 // switchTable extracts (case label -> result) from the first switch statement
 // of a function: the result is the composite literal / identifier assigned or
 // returned in the case body.
@@ -694,6 +705,87 @@ func main() {
 	sort.Slice(opmap, func(i, j int) bool { return opmap[i][0] < opmap[j][0] })
 	emitPairs("parser_operator_map", opmap, false)
 	emitPairs("parser_operator_to_biscuit", switchTable(findFunc(gr, "Operator", "ToExpr"), "Operator.ToExpr"), false)
+
+	// ---- C19: writes through shared objects.  For every method of *Biscuit (the token shared by
+	// goroutines) and every use of the authorizer's v.biscuit: assignments, inc/dec, append with a
+	// first argument rooted at the shared object, copy into it, and calls of the mutating
+	// SymbolTable / FactSet / World methods on expressions rooted at it.
+	sharedWrites := [][2]string{}
+	mutating := map[string]bool{"Insert": true, "InsertAll": true, "Extend": true, "SplitOff": true, "AddFact": true, "AddRule": true, "ResetRules": true, "Run": true}
+	rootedAt := func(e ast.Expr, root string, via string) bool {
+		for {
+			switch x := e.(type) {
+			case *ast.SelectorExpr:
+				if id, ok := x.X.(*ast.Ident); ok && id.Name == root && (via == "" || x.Sel.Name == via) {
+					return true
+				}
+				e = x.X
+			case *ast.IndexExpr:
+				e = x.X
+			case *ast.SliceExpr:
+				e = x.X
+			case *ast.StarExpr:
+				e = x.X
+			case *ast.ParenExpr:
+				e = x.X
+			case *ast.Ident:
+				return via == "" && x.Name == root
+			default:
+				return false
+			}
+		}
+	}
+	scan := func(file *ast.File, fname string, recvType string, via string) {
+		for _, d := range file.Decls {
+			fd, ok := d.(*ast.FuncDecl)
+			if !ok || fd.Recv == nil || fd.Body == nil || len(fd.Recv.List) != 1 || len(fd.Recv.List[0].Names) != 1 {
+				continue
+			}
+			t := fd.Recv.List[0].Type
+			if st, ok := t.(*ast.StarExpr); ok {
+				t = st.X
+			}
+			if id, ok := t.(*ast.Ident); !ok || id.Name != recvType {
+				continue
+			}
+			root := fd.Recv.List[0].Names[0].Name
+			where := fname + ":" + fd.Name.Name
+			ast.Inspect(fd.Body, func(n ast.Node) bool {
+				switch x := n.(type) {
+				case *ast.AssignStmt:
+					if x.Tok == token.DEFINE {
+						break
+					}
+					for _, l := range x.Lhs {
+						if _, isIdent := l.(*ast.Ident); !isIdent && rootedAt(l, root, via) {
+							sharedWrites = append(sharedWrites, [2]string{where, "assign " + exprString(l)})
+						}
+					}
+				case *ast.IncDecStmt:
+					if rootedAt(x.X, root, via) {
+						sharedWrites = append(sharedWrites, [2]string{where, "incdec " + exprString(x.X)})
+					}
+				case *ast.CallExpr:
+					if id, ok := x.Fun.(*ast.Ident); ok && (id.Name == "append" || id.Name == "copy") && len(x.Args) > 0 {
+						if rootedAt(x.Args[0], root, via) {
+							sharedWrites = append(sharedWrites, [2]string{where, id.Name + " into " + exprString(x.Args[0])})
+						}
+					}
+					if sel, ok := x.Fun.(*ast.SelectorExpr); ok && mutating[sel.Sel.Name] && rootedAt(sel.X, root, via) {
+						if _, isRecvItself := sel.X.(*ast.Ident); !isRecvItself || via == "" {
+							sharedWrites = append(sharedWrites, [2]string{where, "call " + exprString(sel.X) + "." + sel.Sel.Name})
+						}
+					}
+				}
+				return true
+			})
+		}
+	}
+	bis := parseFile(filepath.Join(repo, "biscuit.go"))
+	scan(bis, "biscuit.go", "Biscuit", "")
+	authz := parseFile(filepath.Join(repo, "authorizer.go"))
+	scan(authz, "authorizer.go", "authorizer", "biscuit")
+	emitPairsAllowEmpty("shared_write_sites", sharedWrites)
 
 	if err := os.WriteFile(os.Args[2], []byte(out.String()), 0o644); err != nil {
 		die("%v", err)
